@@ -133,7 +133,7 @@ def run(ctx):
     for e in events:
         ctx.count([e['op'], e['a'], e['b']])
     ctx.sample(events[0]); ctx.sample(events[len(events) // 2]); ctx.sample(events[-1])
-    verdicts = ctx.validate('C02_Trace', [{k: v for k, v in e.items() if k not in ('expr', 'detail')} for e in events])
+    verdicts = ctx.validate_stateless('C02_Trace', [{k: v for k, v in e.items() if k not in ('expr', 'detail')} for e in events])
     ctx.cov['traces_validated_against_impl'] += 1
     for (i, clause) in verdicts:
         e = events[i - 1]
